@@ -1,7 +1,7 @@
 """C03 — batches and transactions are all-or-nothing across crashes.
 Theorems: props/C03.v (cut at any byte, reappend).  Correspondence: the real journal
 writer/reader vs. the extracted Reader.v on the same bytes, for every cut offset."""
-import os, random, shutil, collections
+import subprocess, os, random, shutil, collections
 from common import (proof_audit, pinned_statements_ok, run_fjv, workdir, pmap, TRUSTED_BASE, log)
 import journal as J
 
@@ -84,8 +84,15 @@ def check_journal(args):
             for pad in ((0, 37) if (m % 3 == 0 or tier != "quick") else (r.choice([0, 1, 64]),)):
                 cl.append((m, pad))
         chunks = [cl[i:i + 60] for i in range(0, len(cl), 60)]
-        bi = J.cuts_impl(jf, f, cl)
-        bm = [b for part in pmap(lambda ch: J.cuts_model(jf, ch), chunks, workers=8) for b in part]
+        # the implementation side in chunks as well (each fjv process gets its own scratch file): a thorough journal has up
+        # to 12 000 cuts, too many for one process under a time limit on a busy machine
+        ichunks = [cl[i:i + 400] for i in range(0, len(cl), 400)]
+        try:
+            bi = [b for part in pmap(lambda a: J.cuts_impl(jf, f + ".%d" % a[0], a[1]), list(enumerate(ichunks)), workers=4) for b in part]
+            bm = [b for part in pmap(lambda ch: J.cuts_model(jf, ch), chunks, workers=8) for b in part]
+        except subprocess.TimeoutExpired:
+            out["incomplete"] = True          # too slow right now: nothing judged for this journal
+            return out
         if len(bi) != len(cl) or len(bm) != len(cl):
             out["problems"].append(("cut-run", -1, 0, ["impl blocks %d" % len(bi)], ["model blocks %d" % len(bm)], [str(len(cl))]))
             return out
